@@ -81,6 +81,9 @@ def group_join_(
                 for right_value in list(right_map.values()):
                     subject.on_next(right_value)
 
+                if rcd.is_disposed:
+                    return
+
                 md = SingleAssignmentDisposable()
                 group.add(md)
 
